@@ -38,7 +38,7 @@ REDUCED = [
     ["-  two spaces"],
     ["o P3  2024-02-05 two spaces dated"],
 ]
-LAYOUTS = ["same_block", "two_blocks", "dated_h2", "subdir", "two_pages", "same_name_pages"]
+LAYOUTS = ["same_block", "two_blocks", "dated_h2", "subdir", "two_pages", "same_name_pages", "deep_sections"]
 
 
 def variant_items():
@@ -79,6 +79,12 @@ def build_files(case) -> dict[str, str]:
         return {"a.zo": "# t\n\n" + A + "\n" + f"{H2R} Sec 2024-03-03 #st\n\n" + B}
     if layout == "subdir":
         return {"sub/dir/a.zo": "# t\n\n" + A + B, "top.zo": "# top\n\n- 240103#Z3 top note\n"}
+    if layout == "deep_sections":
+        H1R_, H3R_, H4R_ = "#" * 32, "+" * 16, "-" * 8
+        return {"a.zo": "# t #tt\n\n- 240109#Z9 top block note\n\n" + f"{H1R_} One +p1\n\n" + A + "\n"
+                + f"{H2R} Two k::v\n\n- 240110#ZA under two\n\n{H3R_} Three 2024-03-03\n\n" + B + "\n"
+                + f"{H4R_} Four @c4\n\n" + A.replace("#Z", "#X").replace("plain one", "plain again") + "- 240111#ZB last under four\n\n"
+                + f"{H2R} Two again\n\n- 240112#ZC in the second h2\n"}
     if layout == "same_name_pages":
         return {"work/a.zo": "# w\n\n" + A, "home/a.zo": "# h 2024-04-04\n\n" + B, "a.zo": "# top\n\n- 240103#Z3 top note\n"}
     if layout == "two_pages":
@@ -276,7 +282,7 @@ def run(ctx: F.Ctx):
             "bullets incl. a bullet property}) between two notes that already have ZIDs; (b) every "
             "ordered pair of a 12-item alphabet (ZID-less, dated, multi-line, with ZID, stamped, "
             "irregular spacing) in 5 layouts (same block, two blocks, under a dated H2, page in a "
-            "sub-directory, two pages, pages with the same file name in different sub-directories); with and without a pre-existing next_ids.json whose next "
+            "sub-directory, two pages, pages with the same file name in different sub-directories, H1>H2>H3>H4 nesting); with and without a pre-existing next_ids.json whose next "
             "suffixes sit right before every carry and every skip over excluded characters. Histories over {create, reindex} (quick: c, cc, cr; thorough adds crr, "
             "ccr, crc), same day and with the day advancing between steps. Every transition runs "
             "the real CLI in a fresh process; state = files + raw index + meta stores. Invariants "
